@@ -15,6 +15,7 @@ import (
 	"fmt"
 	"os"
 	"os/exec"
+	"runtime"
 	"strconv"
 	"strings"
 	"time"
@@ -238,6 +239,7 @@ func runGCSProbe(p gcsProbe) {
 
 // gcsChildMain is what the re-executed harness binary runs.
 func gcsChildMain() {
+	runtime.LockOSThread()
 	seed, _ := strconv.ParseUint(os.Getenv("C08_SEED"), 10, 64)
 	skip, _ := strconv.Atoi(os.Getenv("C08_SKIP"))
 	thorough := os.Getenv("C08_TIER") == "thorough"
@@ -271,7 +273,7 @@ func gcsChildMain() {
 		for _, op := range []string{"Match", "ZipMatchAny", "HashMatchAny"} {
 			op := op
 			emit("B %d %s\n", len(probes), fmt.Sprintf(`{"scale":%q}`, op))
-			scaleProbe("gcs."+op, 100000, 3, func(n int) (func(), func() interface{}) {
+			scaleProbe("gcs."+op, 100000, 5, func(n int) (func(), func() interface{}) {
 				var key [16]byte
 				var elems [][]byte
 				for i := 0; i < n/3; i++ { // about 2.6 bytes per element at P = 19
